@@ -116,8 +116,12 @@ def gen_case(seed: int, prop: str, tier: str) -> dict:
         if e > s:
             extras.append(["w", s, e - s, 50000 + tries])
             got += u1 - u0
-    return {"engine": "lazy", "prop": prop, "seed": seed, "fmt": fmt, "cfg": cfg, "align": align, "ops": ops, "extras": extras,
+    case = {"engine": "lazy", "prop": prop, "seed": seed, "fmt": fmt, "cfg": cfg, "align": align, "ops": ops, "extras": extras,
             "cops": reqs, "open": rng.choice(F.open_modes(cfg))}
+    if rng.random() < 0.08:
+        case["tail_damage"] = True
+        case["extras"] = []
+    return case
 
 
 def _run_variant(case, ops, tag):
@@ -129,6 +133,12 @@ def _run_variant(case, ops, tag):
     with world.fs, monitored():
         F_, layers, view, img, main = disk.build(dcase, world)
         size = view.n * 512
+        if case.get("tail_damage"):
+            # fault: the last KiB of the image file is zeroed (a lost trailing footer / end marker / last table sector). Such an
+            # image may be refused or served - but cheaply: an attempt to recover by searching the file is a scan.
+            mf = world.fs.files[main]
+            mf.write(max(0, mf.length - 1024), bytes(min(1024, mf.length)))
+            world.faults_fired["tail_zeroed"] += 1
         led0 = world.total_ledger()
         try:
             with metered(STEP_LIMIT, "loop", world.step_allowance(STEP_LIMIT, 2.0, img.meta_bytes)):
@@ -136,7 +146,17 @@ def _run_variant(case, ops, tag):
         except BudgetExceeded:
             return ("budget", "open did not finish within the step budget"), trace, world, None
         except Exception as e:
+            if case.get("tail_damage"):
+                led = world.total_ledger()
+                if led["ret"] - led0["ret"] > K_OPEN * img.meta_bytes + C_OPEN:
+                    return ("io-open", f"refusing the damaged image cost {led['ret'] - led0['ret']} bytes of I/O (metadata is {img.meta_bytes} bytes)"), trace, world, None
+                return None, trace, world, None
             return ("raised:" + type(e).__name__, f"open raised {type(e).__name__}: {e}"[:300]), trace, world, None
+        if case.get("tail_damage"):
+            led = world.total_ledger()
+            if led["ret"] - led0["ret"] > K_OPEN * img.meta_bytes + C_OPEN:
+                return ("io-open", f"opening the damaged image cost {led['ret'] - led0['ret']} bytes of I/O (metadata is {img.meta_bytes} bytes)"), trace, world, None
+            return None, trace, world, None
         led = world.total_ledger()
         opened = led["ret"] - led0["ret"]
         trace.append(("open", led["calls"] - led0["calls"], opened))
@@ -253,6 +273,9 @@ def run_case(case: dict) -> RunResult:
         if op[1] >= (1 << 32):
             res.nontrivial_keys.add(key)
     res.probes["lazy.fmt_" + case["fmt"]] = 1
+    res.faults.update(wa.faults_fired)
+    if case.get("tail_damage"):
+        res.probes["lazy.fault_tail_zeroed"] = 1
     if size >= (1 << 40):
         res.probes["lazy.virtual_size_ge_1TiB"] = 1
     if size >= (1 << 44):
